@@ -175,11 +175,122 @@ def include_case(ctx, rng):
     include_run(ctx, {"survey": main_rows, "choices": choices}, inc)
 
 
+def flat_model_call(ctx, form, root="data"):
+    """`FormFlat.formOutFlat` (op `flat.model`) on the rows as they are, `flat` cells included."""
+    rows = [formobs.canon_cells(x) for x in form["survey"]]
+    lists = sorted({x.get("list_name", "") for x in form.get("choices", [])})
+    settings = formobs.canon_cells(form["settings"][0]) if form.get("settings") else []
+    for k, v in settings:
+        if k == "name":
+            root = v
+    return ctx.driver.call("flat.model", rows=rows, lists=lists, settings=settings, root=root)
+
+
+def flat_case(ctx, form):
+    """Correspondence of the flat-aware model (`Pyxv.FormFlat`, theorems `refs_resolve_flat`,
+    `siblings_unique_flat`) with the implementation: accept / reject, instance name tree, bind nodesets, body
+    refs; plus the closure / uniqueness oracle on the implementation's output."""
+    r = impl.run(form)
+    m = flat_model_call(ctx, form)
+    ctx.count(f"flat-impl:{r['class']}/model:{m['outcome']}")
+    if m["outcome"] == "unsupported":
+        ctx.count("flat-unsupported: " + m.get("why", "?"))
+    if r["class"] == "internal":
+        ctx.fail(Failure("flat-crash", f"{r.get('exc')} at {r.get('site')}: {r.get('msg', '')[:200]}", {"form": form}))
+    elif r["ok"]:
+        obs = formobs.observe(r["xform"])
+        oracle(ctx, form, obs)
+        if m["outcome"] == "ok":
+            if not m["closed"]:
+                ctx.mismatch("flat: model output not closed", form, "-", m)
+            if not formobs.nt_eq(obs["instance"], m["instance"]):
+                ctx.mismatch("flat: instance tree", form, formobs.nt_str(obs["instance"]), formobs.nt_str(m["instance"]))
+            if sorted(obs["binds"]) != sorted(m["binds"]):
+                ctx.mismatch("flat: bind nodesets", form, obs["binds"], m["binds"])
+            if obs["body"] != m["body"]:
+                ctx.mismatch("flat: body refs", form, obs["body"], m["body"])
+        elif m["outcome"] == "error":
+            ctx.mismatch("flat: model rejects, implementation accepts", form, "ok", m["err"])
+            if "dupSibling" in m["err"] or "dupSection" in m["err"]:
+                ctx.fail(Failure("accepted-clash", f"a sheet with names clashing through a flat group was converted: {m['err']}",
+                                 {"form": form}))
+    elif r["class"] == "pyxform" and m["outcome"] == "ok":
+        ctx.mismatch("flat: implementation rejects, model accepts", form, r["msg"][:300], "ok")
+    ctx.record({"form": form}, r["ok"] and m["outcome"] == "ok")
+
+
+FLAT_Q = [("text", {}), ("integer", {}), ("note", {}), ("calculate", {"calculation": "1 + 1"}), ("select_one yn", {}),
+          ("decimal", {"required": "yes"}), ("text", {"relevant": "1 = 1"}), ("select_multiple yn", {})]
+
+
+def flat_form(rng, big=False):
+    """A sheet with flat groups at any depth: nested in each other, in plain groups, beside (and, rarely, inside or
+    around) repeats; a small name pool so that names clash — or not — only through a flat group."""
+    pool = ["a", "b", "c", "A", "g", "f", "meta", "x_1"]
+    uniq = [0]
+    p_rep_mix = 0.08
+    rows = []
+
+    def name(kind):
+        if rng.random() < (0.55 if kind == "q" else 0.2):
+            return rng.choice(pool)
+        uniq[0] += 1
+        return f"{kind}{uniq[0]}"
+
+    def block(depth, budget, in_flat, in_rep):
+        n = rng.randint(1, 4)
+        for _ in range(n):
+            if budget[0] <= 0:
+                return
+            budget[0] -= 1
+            x = rng.random()
+            if depth < (7 if big else 5) and x < 0.42:
+                sec = "group"
+                flat = False
+                if rng.random() < 0.25:
+                    sec = "repeat"
+                    if in_flat and rng.random() > p_rep_mix:
+                        sec = "group"
+                if sec == "group" and rng.random() < 0.55:
+                    flat = not in_rep or rng.random() < p_rep_mix
+                row = {"type": f"begin {sec}", "name": name("s"), "label": "S"}
+                if rng.random() < 0.15:
+                    row.pop("label")
+                if rng.random() < 0.2:
+                    row["relevant"] = "1 = 1"
+                if flat:
+                    row["flat"] = rng.choice(["yes", "true", "1", "no", "x"])
+                rows.append(row)
+                block(depth + 1, budget, in_flat or flat, in_rep or sec == "repeat")
+                rows.append({"type": f"end {sec}"})
+            else:
+                t, extra = rng.choice(FLAT_Q)
+                row = {"type": t, "name": name("q"), "label": "Q"}
+                row.update(extra)
+                if t == "calculate":
+                    row.pop("label")
+                rows.append(row)
+
+    block(0, [rng.randint(2, 26 if big else 14)], False, False)
+    form = {"survey": rows, "choices": [{"list_name": "yn", "name": "y", "label": "Yes"}, {"list_name": "yn", "name": "n", "label": "No"}]}
+    x = rng.random()
+    if x < 0.2:
+        form["settings"] = [{"omit_instanceID": "yes"}]
+    elif x < 0.3:
+        form["settings"] = [{"instance_name": "concat('a', 'b')"}]
+    elif x < 0.4:
+        form["settings"] = [{"name": rng.choice(["root", "g", "f"])}]
+    return form
+
+
 def explore(ctx, factor, bs):
     rng = ctx.rng
     form_case(ctx, FLAT_IN_REPEAT)  # directed case of the open finding C02-flat-group-in-repeat
     for _ in range(ctx.pick(40, 600) * factor):
         include_case(ctx, rng)
+    # row-level `flat` groups: correspondence with the flat-aware model (`flat.model`) + oracle
+    for _ in range(ctx.pick(400, 8000) * factor):
+        flat_case(ctx, flat_form(rng, big=not ctx.quick()))
     n = ctx.pick(1200, 30000) * factor
     for i in range(n):
         big = not ctx.quick()
@@ -214,6 +325,8 @@ def replay(ctx, payload, bs):
         include_run(ctx, form["include"]["main"], form["include"]["address"])
     else:
         form_case(ctx, form)
+        if any("flat" in x for x in form.get("survey", [])):
+            flat_case(ctx, form)
     return (len(ctx.failures), len(ctx.mismatches)) == before
 
 
